@@ -6,7 +6,8 @@ use super::*;
 use crate::verif_support::Src;
 use alloc::{vec, vec::Vec}; // for generated concrete-playback tests (no_std crate)
 
-//@ tier: quick
+//@ tier: thorough
+//@ timeout: 2400
 //@ inst: T = u8, source = Src (counting source with an arbitrary lawful size_hint)
 //@ funcs: rc_lazy_list::List::from_iter, List::next, Node::from_iter, List::clone
 //@ bounds: sources of 0..=2 items; two clones of the list, the first advanced k <= 3 steps, then the second advanced 3 steps
